@@ -443,7 +443,8 @@ func cmdCheck(args []string) {
 		for nk, ok := range e.renamedNew {
 			blName = strings.Replace(blName, nk+"#", ok+"#", 1)
 		}
-		if (ob.Unit.preStale || (ob.Unit.calleeStaleAt > 0 && ob.cmdIdx >= ob.Unit.calleeStaleAt-1)) && !isKnown {
+		if (ob.Unit.preStale || (ob.Unit.calleeStaleAt > 0 && ob.cmdIdx >= ob.Unit.calleeStaleAt-1) ||
+			(ob.Unit.newLoopAt > 0 && ob.cmdIdx >= ob.Unit.newLoopAt-1)) && !isKnown {
 			// the unit was verified without a precondition that could not be evaluated: what fails in it is undecided
 			undecided = append(undecided, ob)
 			continue
@@ -561,6 +562,9 @@ func cmdCheck(args []string) {
 		}
 		for _, s := range u.rebinds {
 			fmt.Printf("RE-BOUND: %s\n", s)
+		}
+		for _, s := range u.newLoops {
+			fmt.Printf("NEW-LOOP (no invariant; what fails after it is undecided): %s\n", s)
 		}
 		seenCS := map[string]bool{}
 		for _, s := range u.calleeStale {
